@@ -470,6 +470,12 @@ func (r *seqRun) afterFaulted(after string, hr handleRef) {
 		r.compareTree(after)
 		return
 	}
+	if r.lastWrite == nil && r.sc.Kind == "C02" {
+		// C02: "a failed request leaves the tree unchanged" - the model was not touched, so the backend
+		// tree must still equal it
+		r.compareTree(after + " (which failed under an injected backend error)")
+		return
+	}
 	if r.lastWrite == nil {
 		// a failed multi-step request (CREATE ...) under a fault may have completed some of its steps;
 		// what it must never do is judged by the operation's own oracles. Realign and go on exactly.
